@@ -348,6 +348,30 @@ def coq_cases(seed, pid, n, layouts, wild=False):
     return out
 
 
+ALL_TOKS = ["KStruct", "KTask", "KIn", "KOut", "KLoop", "KWhile", "KTo", "KParallel", "KCondition", "KPassed",
+            "KFailed", "KOnDone", "KEnd", "KNumberP", "KStringP", "KBooleanP", "KTrue", "KFalse", "PColon", "PDot",
+            "PComma", "PJsonOpen", "PQuote", "PArrL", "PArrR", "PLParen", "PRParen", "OpLt", "OpLe", "OpGt", "OpGe",
+            "OpEq", "OpNe", "OpAnd", "OpOr", "OpNot", "OpStar", "OpSlash", "OpMinus", "OpPlus", "TInt", "TFloat",
+            "TStr", "TLower", "TUpper", "JString", "JTrue", "JFalse", "JColon", "JQuote", "JArrL", "JArrR", "JComma",
+            "JNumber", "JOpen2", "JClose"]
+
+
+def check_token_tables(pid, workdir, rep, stats):
+    """the harness' table 'ANTLR token name -> constructor of Front.Tokens.tok' against
+    Front/Lexemes.v (tok_rule over all_toks), which Gen/ObligationsFront.v ties to PFDLLexer.g4"""
+    import coqeval
+    out, _ = coqeval.run_coq("Eval vm_compute in (map (fun t => snd (tok_rule t)) all_toks).\n", workdir, "toktable",
+                             header="From PFDL.Front Require Import Lexemes.\nFrom Coq Require Import String List.\n"
+                                    "Set Printing Depth 100000.\nSet Printing Width 200.\n")
+    names = re.findall(r'"([A-Z_0-9a-z]+)"', out)
+    expected = [front_lines.COQ_TOK_REV[c] for c in ALL_TOKS]
+    stats["token_table_entries"] = len(names)
+    if names != expected:
+        rep.violation({"property": pid, "kind": "front", "sub": "token-table", "coq": names, "harness": expected,
+                       "machinery_note": "harness token table and Front/Lexemes.v disagree"},
+                      "no-failing-input-found")
+
+
 def slice_denter(pid, cases, workdir, rep, stats):
     import coqeval
     import front_dump
@@ -619,6 +643,8 @@ def front_slice(pid, cfg, tier, seed, workdir, rep, stats, findings):
                                                    "'known' entry for it"}, "")
     # Gallina models
     t1 = time.time()
+    if have_vo("Lexemes"):
+        check_token_tables(pid, workdir, rep, stats)
     if have_vo("Denter"):
         cases = coq_cases(seed, pid, t["coq_denter"], layout_names, wild=True)
         slice_denter(pid, cases, workdir, rep, stats)
